@@ -110,7 +110,7 @@ func divGuards(c *props.Ctx) {
 			c.R.Violate("NEIGH-8", construct, p.Pos(ssau.PosOf(in)), "the sum over the neighbours is divided by VertexLUT.Count(v) without a test that the vertex has neighbours: for a vertex no primitive refers to this is 0/0, and the NaN replaces the vertex the operation should leave where it is")
 		})
 	}
-	c.R.Floor("NEIGH-8", 2)
+	c.R.Floor("NEIGH-8", 1)
 }
 
 // countCall: v is (a numeric conversion of) a VertexLUT.Count(...) call.
